@@ -208,6 +208,74 @@ void h_sort(void) {
   COVER_ALT(N < 2 || in_v[0] > in_v[1], "sort has work to do"); COVER_ALT(N < 2 || in_v[0] == in_v[1], "sort with duplicates");
 }
 
+/* ---- C04 sort, modular (see harness/Array/k3.c): partition contract (P), Tuple_Sort_Part by induction over the range length with the
+ * partition and the recursive calls cut by their contracts (S), Tuple_Sort_By composition (C). A Tuple holds references: the
+ * permutation is one of the item pointers, the objects themselves are never written. ---- */
+#ifndef SL
+#define SL 0
+#endif
+#ifndef SR
+#define SR (N - 1)
+#endif
+#define TV(j) EV(t->items[(j)])
+static var gh_item; static int cv_part_calls, cv_rec_calls, cv_stub_bad;
+static int count_in(int64_t lo, int64_t hi) { int c = 0; for (int j = 0; j < N; j++) if (j >= lo && j <= hi && t->items[j] == gh_item) c++; return c; }
+static int rest_untouched(int64_t lo, int64_t hi) { for (int j = 0; j <= N; j++) if ((j < lo || j > hi) && t->items[j] != old_item[j]) return 0; for (int j = 0; j < N; j++) if (E[j].v.val != in_v[j]) return 0; return 1; }
+static void cv_permute(int64_t l, int64_t r) {
+  var tmp[N + 1]; int p[N + 1];
+  for (int i = 0; i < N; i++) if (i >= l && i <= r) {
+    p[i] = nondet_int(); __CPROVER_assume(p[i] >= l && p[i] <= r);
+    for (int k = 0; k < i; k++) if (k >= l) __CPROVER_assume(p[k] != p[i]);
+    tmp[i] = t->items[p[i]];
+  }
+  for (int i = 0; i < N; i++) if (i >= l && i <= r) t->items[i] = tmp[i];
+}
+size_t cv_partition_stub(struct Tuple* tt, int64_t l, int64_t r, bool(*f)(var,var)) {
+  cv_part_calls++;
+  if (!(tt == t && l == SL && r == SR && l < r && f == cv_lt)) { cv_stub_bad++; return l; }
+  cv_permute(l, r);
+  int64_t s = nondet_long(); __CPROVER_assume(s >= l && s <= r);
+  for (int j = 0; j < N; j++) { if (j >= l && j < s) __CPROVER_assume(TV(j) < TV(s)); if (j > s && j <= r) __CPROVER_assume(!(TV(j) < TV(s))); }
+  return (size_t)s;
+}
+void cv_sort_part_stub(struct Tuple* tt, int64_t l, int64_t r, bool(*f)(var,var)) {
+  cv_rec_calls++;
+  if (!(tt == t && f == cv_lt && l >= SL && r <= SR && (r - l) < (SR - SL))) { cv_stub_bad++; return; }
+  if (l >= r) return;
+  cv_permute(l, r);
+  for (int j = 0; j + 1 < N; j++) if (j >= l && j + 1 <= r) __CPROVER_assume(!(TV(j + 1) < TV(j)));
+}
+void cv_sort_part_top(struct Tuple* tt, int64_t l, int64_t r, bool(*f)(var,var)) { cv_rec_calls++; if (!(tt == t && l == 0 && r == (int64_t)N - 1 && f == cv_lt)) cv_stub_bad++; }
+void h_sort_partition(void) {
+  arbitrary_tuple(); unsigned g = nondet_unsigned(); __CPROVER_assume(g < N); gh_item = &E[g].v; int before = count_in(SL, SR);
+  size_t s = Tuple_Sort_Partition(t, SL, SR, cv_lt);
+  check_wf(N);
+  ASSERT((int64_t)s >= SL && (int64_t)s <= SR, "[C04] partition returns a position inside the range");
+  for (int j = SL; j <= SR; j++) { if (j < (int64_t)s) ASSERT(TV(j) < TV(s), "[C04] everything before the pivot position compares below the pivot"); if (j > (int64_t)s) ASSERT(!(TV(j) < TV(s)), "[C04] nothing after the pivot position compares below the pivot"); }
+  ASSERT(count_in(SL, SR) == before && rest_untouched(SL, SR), "[C04] partition permutes the items of the range, touches nothing outside it and writes to no item");
+  COVER_ALT(1, "partition returns");
+}
+#ifdef CV_SORT_BODY
+#include "gen_sort_part.h"      /* Tuple_Sort_Part_body: the text of Tuple_Sort_Part extracted from /repo on this run, definition line renamed */
+#endif
+void h_sort_part(void) {
+  arbitrary_tuple(); unsigned g = nondet_unsigned(); __CPROVER_assume(g < N); gh_item = &E[g].v; int before = count_in(SL, SR);
+#ifdef CV_SORT_BODY
+  Tuple_Sort_Part_body(t, SL, SR, cv_lt);
+#endif
+  check_wf(N);
+  ASSERT(cv_stub_bad == 0, "[C04] sort partitions exactly its own range and recurses only into strictly shorter sub-ranges of it (termination, frame)");
+  for (int j = SL; j + 1 <= SR; j++) ASSERT(!(TV(j + 1) < TV(j)), "[C04] sort orders the range by the comparison function");
+  ASSERT(count_in(SL, SR) == before && rest_untouched(SL, SR), "[C04] sort leaves a permutation of the range and touches nothing outside it");
+  COVER_ALT(cv_part_calls == 1 && cv_rec_calls == 2, "partitioned once, recursed twice");
+}
+void h_sort_by(void) {
+  arbitrary_tuple();
+  Tuple_Sort_By(t, cv_lt);
+  ASSERT(cv_rec_calls == 1 && cv_stub_bad == 0, "[C04] sort_by sorts the whole sequence: Tuple_Sort_Part(t, 0, len-1, f), once");
+  COVER_ALT(1, "sort_by returns");
+}
+
 /* C01: the container's Mark instance hands every element to the collector's callback, once */
 static int cv_mk_calls, cv_mk_hits; static var cv_mk_watch, cv_mk_gc;
 static void cv_mark_cb(var g, void* p) { cv_mk_calls++; if (g != cv_mk_gc) cv_mk_calls += 100; if (p == cv_mk_watch) cv_mk_hits++; }
